@@ -12,6 +12,7 @@ import (
 	"os"
 	"reflect"
 	"runtime"
+	"sort"
 	"strconv"
 	"strings"
 )
@@ -314,14 +315,17 @@ func isNumber(s string) bool {
 // DumpLogs renders all logs (native replay).
 func DumpLogs() string {
 	var b strings.Builder
-	for l := 0; l < 8; l++ {
-		if es, ok := Logs[l]; ok {
-			fmt.Fprintf(&b, "log %d:", l)
-			for _, e := range es {
-				fmt.Fprintf(&b, " (%d %s)", e.Tag, e.Val)
-			}
-			b.WriteString("\n")
+	keys := make([]int, 0, len(Logs))
+	for l := range Logs {
+		keys = append(keys, l)
+	}
+	sort.Ints(keys)
+	for _, l := range keys {
+		fmt.Fprintf(&b, "log %d:", l)
+		for _, e := range Logs[l] {
+			fmt.Fprintf(&b, " (%d %s)", e.Tag, e.Val)
 		}
+		b.WriteString("\n")
 	}
 	return b.String()
 }
